@@ -142,15 +142,19 @@ def diskLine (r : Reg) : String :=
 
 def lcLine (kind : String) (limit : Int) : String :=
   let shared := decide (Generated.limiterMutex = Generated.shutdownMutex)
+  -- does the tree have the `s.stopped` handshake?  (`C19.lifecycle_shape` fixes the whole text; the driver only looks)
+  let remembers := Generated.shutdownBody.contains "  s.stopped = true" && Generated.runBody.contains "if s.stopped {"
   match kind with
   | "early" =>
-    -- Shutdown before Run has published the server: the schedule of `C19.f26a_witness`
-    match LC.exec ⟨shared, false, false⟩ LC.init [1, 1, 1, 1, 0, 0, 0, 0, 0, 0] with
-    | some s => if LC.stuckServing s then "shutdown=server-is-not-running run=serving" else "shutdown=ok run=returned"
-    | none => "bad-schedule"
+    -- Shutdown before Run has published the server: the endings in which Shutdown answered "server is not running"
+    let p : LC.Params := ⟨shared, false, false, remembers⟩
+    let ends := (LC.reachable p).filter fun s => LC.terminal p s && LC.get LC.gErr s = 1
+    if ends.any LC.stuckServing then "shutdown=server-is-not-running run=serving"
+    else if !ends.isEmpty && ends.all LC.stoppedBeforeStart then "shutdown=server-is-not-running run=returned"
+    else "unexpected-ending"
   | "normal" => "shutdown=ok run=returned"
   | "load" =>
-    let p : LC.Params := ⟨shared, decide (limit > 0), true⟩
+    let p : LC.Params := ⟨shared, decide (limit > 0), true, remembers⟩
     if (LC.reachable p).any fun s => LC.terminal p s && LC.deadlocked s then "shutdown=hang run=blocked"
     else "shutdown=ok run=returned"
   | _ => "bad"
